@@ -185,6 +185,34 @@ def tableTexts (t : Table) : Option (List (List Bytes)) :=
 
 def exportTable (o : Opts) (t : Table) : Option Bytes := (tableTexts t).map (writeCsv o)
 
+/-- texts of the cells before the first one whose Display panics; `true` = whole row printable -/
+def prefixTexts : List (Option DV) → List Bytes × Bool
+  | [] => ([], true)
+  | c :: cs => match cellText c with
+    | none => ([], false)
+    | some t => let r := prefixTexts cs; (t :: r.1, r.2)
+
+/-- a field as `csv_core::Writer::field` leaves it: the closing quote is only written by the
+next delimiter / terminator -/
+def writeFieldOpen (o : Opts) (f : Bytes) : Bytes :=
+  if needsQuote o f then o.quote :: quoteBody o f else f
+
+def writeFieldsPartial (o : Opts) : List Bytes → Bytes
+  | [] => []
+  | [f] => writeFieldOpen o f
+  | f :: fs => writeField o f ++ o.delim :: writeFieldsPartial o fs
+
+/-- The file `COPY TO` leaves behind, and whether it is complete.  When a cell's Display panics
+(inside the blocking writer thread) the rows before it and the fields of its row written so far
+are flushed by the writer's `Drop`; `writer.await.unwrap()` then panics in the executor task and
+the statement still reports success. -/
+def exportFile (o : Opts) : Table → Bytes × Bool
+  | [] => ([], true)
+  | row :: rest =>
+    match prefixTexts row with
+    | (texts, true) => let r := exportFile o rest; (writeRecord o texts ++ r.1, r.2)
+    | (texts, false) => (writeFieldsPartial o texts, false)
+
 inductive ImportResult where
   | ok (t : Table)
   | error          -- a `Result::Err` (length mismatch, parse error)
